@@ -9,3 +9,4 @@ open Fzf.Props.C03
 #print axioms C03_prefix_scored_as_occurrence
 #print axioms C03_suffix_scored_as_occurrence
 #print axioms C03_occurrence_score_bounds
+#print axioms C03_exact_scored_as_occurrence
